@@ -36,11 +36,12 @@ type PMesh struct {
 	Attrs []PAttr `json:"attrs"`
 	Mats  []PMat  `json:"mats"`
 	Exact bool    `json:"exact"`
+	Bx    bool    `json:"bx"` // every value is bit-exactly on the lattice (no floating-point noise at all)
 	Fp    []int   `json:"fp"`
 }
 
 func NullMesh() PMesh {
-	return PMesh{Topo: "NULL", Idx: []int{}, Attrs: []PAttr{}, Mats: []PMat{}, Exact: true, Fp: []int{}}
+	return PMesh{Topo: "NULL", Idx: []int{}, Attrs: []PAttr{}, Mats: []PMat{}, Exact: true, Bx: true, Fp: []int{}}
 }
 
 func FailMesh() PMesh {
@@ -144,7 +145,7 @@ func MatId(m *modeling.Material) int {
 
 // Mesh projects a real mesh through PUBLIC observers only.
 func Mesh(m modeling.Mesh) PMesh {
-	p := PMesh{Topo: TopoName(m.Topology()), Exact: true, Idx: []int{}, Attrs: []PAttr{}, Mats: []PMat{}}
+	p := PMesh{Topo: TopoName(m.Topology()), Exact: true, Bx: true, Idx: []int{}, Attrs: []PAttr{}, Mats: []PMat{}}
 	h := fnv.New64a()
 	wr := func(u uint64) {
 		var b [8]byte
@@ -164,6 +165,9 @@ func Mesh(m modeling.Mesh) PMesh {
 			v, ok := Scaled(x)
 			if !ok {
 				p.Exact = false
+			}
+			if !ok || x*Q != float64(v) {
+				p.Bx = false
 			}
 			out[i] = v
 			wr(math.Float64bits(x))
